@@ -107,6 +107,14 @@ impl TrackState {
         }
     }
     pub fn live_blocks(&self) -> usize { self.live.len() }
+    /// no resize of storage #`serial` below `live` elements
+    pub fn resize_below(&self, serial: u32, live: usize) -> Option<String> {
+        for e in &self.events {
+            let (s, new) = match e { TEv::Resize { serial, new, .. } | TEv::Expand { serial, new, .. } | TEv::ExpandExact { serial, new, .. } => (*serial, *new), _ => continue };
+            if s == serial && new < live { return Some(format!("storage #{serial} resized to {new} elements while {live} elements were live")); }
+        }
+        None
+    }
     /// Mem lifecycle: every Mem is built once with the expected element layout, nothing happens after its release
     pub fn lifecycle_errors(&self, size: usize, align: usize) -> Vec<String> {
         let mut errs = Vec::new();
@@ -145,13 +153,16 @@ pub struct TrackMem {
     layout: Layout,
     pub serial: u32,
     fixed: bool,
+    /// `expand` grows by exactly the requested amount (still "at least additional"): no slack for code that assumes doubling
+    tight: bool,
 }
 // markers only matter for C15-style questions; the harness is single threaded per model
 unsafe impl Send for TrackMem {}
 unsafe impl Sync for TrackMem {}
 
 impl TrackMem {
-    fn build(layout: Layout, cap: usize, fixed: bool) -> Self {
+    fn build(layout: Layout, cap: usize, fixed: bool) -> Self { Self::build2(layout, cap, fixed, false) }
+    fn build2(layout: Layout, cap: usize, fixed: bool, tight: bool) -> Self {
         with_ts(|ts| {
             let serial = ts.next_serial;
             ts.next_serial += 1;
@@ -160,7 +171,7 @@ impl TrackMem {
                 Some(b) => { let p = b.payload; ts.live.push((serial, b)); p }
                 None => layout.align() as *mut u8,
             };
-            TrackMem { ptr, cap, layout, serial, fixed }
+            TrackMem { ptr, cap, layout, serial, fixed, tight }
         })
     }
     fn relocate(&mut self, new_cap: usize) {
@@ -193,7 +204,7 @@ impl Mem for TrackMem {
         }
         let old = self.cap;
         let requested = old.checked_add(additional).expect("Track: capacity overflow");
-        let new = std::cmp::max(old.saturating_mul(2), requested);
+        let new = if self.tight { requested } else { std::cmp::max(old.saturating_mul(2), requested) };
         with_ts(|ts| ts.events.push(TEv::Expand { serial: self.serial, add: additional, old, new }));
         self.relocate(new);
     }
@@ -234,6 +245,17 @@ impl MemBuilderSizeable for Track {
     fn build_with_size(&mut self, element_layout: Layout, capacity: usize) -> TrackMem {
         TrackMem::build(element_layout, capacity, false)
     }
+}
+
+/// As `Track`, but `expand(n)` grows by exactly n elements.
+#[derive(Clone, Copy, Default, Debug)]
+pub struct TrackTight;
+impl MemBuilder for TrackTight {
+    type Mem = TrackMem;
+    fn build(&mut self, element_layout: Layout) -> TrackMem { TrackMem::build2(element_layout, 0, false, true) }
+}
+impl MemBuilderSizeable for TrackTight {
+    fn build_with_size(&mut self, element_layout: Layout, capacity: usize) -> TrackMem { TrackMem::build2(element_layout, capacity, false, true) }
 }
 
 /// Fixed-capacity (N elements), instrumented backend: `TrackFixedMem` is deliberately a distinct type that
